@@ -41,6 +41,11 @@ type (
 		// importID is the number of the import statement that spliced
 		// the token into the token list; 0 for a token of the input
 		importID int
+
+		// envLineBreaks is the number of line breaks that values of
+		// environment variables have put into Text; they are not line
+		// breaks of the input
+		envLineBreaks int
 	}
 )
 
@@ -154,9 +159,11 @@ func (l *lexer) next() bool {
 	}
 }
 
-// NumLineBreaks counts how many line breaks are in the token text.
+// NumLineBreaks counts how many line breaks of the input are in the
+// token text. Line breaks in substituted values of environment variables
+// do not count: the token still ends on the line where it was written.
 func (t Token) NumLineBreaks() int {
-	lineBreaks := strings.Count(t.Text, "\n")
+	lineBreaks := strings.Count(t.Text, "\n") - t.envLineBreaks
 	return lineBreaks
 }
 
